@@ -13,7 +13,7 @@ CHECKS = {
              'normalisation), the bounding-box prefilter never changes the answer (closed-walk parity), polygon-with-holes and box '
              'membership are the stated set expressions, and on rectangles insideEO is elementary insideness. Tied to '
              'structures.py by exhaustive small-grid rings x half-step queries x all rotations/reversals, holes, boxes, random rings.',
-        note='Trusted: Lean kernel + Mathlib; Jordan link (even-odd parity = topological inside for simple rings) assumed and '
+        note='Trusted: Lean kernel + Mathlib; Jordan link (even-odd parity = topological inside) proved for strictly convex rings and triangles (Props/C01Convex), assumed for other simple rings and '
              'validated against an independent winding-number oracle; rational model vs binary64 code compared on dyadic grids only; '
              'antimeridian-spanning shapes excluded by the statement.',
         technique='Lean 4 proof (model = even-odd spec, invariance lemmas) + source translator (_point_in_polygon regenerated as Lean from the current text and proved equal to the model) + exhaustive/random differential correspondence vs GeoPolygon/GeoBox',
@@ -26,7 +26,7 @@ CHECKS = {
              'valid shapes, linestring containment is the contiguous-sub-sequence relation, and time bounds are never read. Tied to '
              'the code by segment pairs (3x3 grid), raw sweeps, and random + relational shape pairs in both orders with time bounds.',
         note='Trusted: Lean kernel + Mathlib; the step from edge crossings + first-vertex containment to closed-set truth for simple '
-             'polygons is the Jordan argument (assumed; every generated pair is also judged by an exact Fraction set-truth oracle); '
+             'polygons is the Jordan argument (proved outright for all pairs of axis-parallel rectangles, Props/C02Box; otherwise assumed; every generated pair is also judged by an exact Fraction set-truth oracle); '
              'collinear-only boundary overlap is documented as unspecified; 1e-10 rounding inert on the dyadic grids used.',
         technique='Lean 4 proof (segment geometry, sweep invariant, relation laws) + source translator (PolygonBase.contains_shape / intersects_shape per argument kind, find_line_intersection and the sweep do_edges_intersect regenerated as Lean and proved equal to the model) + differential correspondence + exact set-truth oracle',
         design='§6 C02'),
@@ -171,11 +171,12 @@ CHECKS = {
              'neighbour-connected touched sets, closed, terminating on every finite grid (instantiated for the geohash grid); multi = union; '
              'on the integer lattice of a rational grid the connectivity and finiteness hypotheses are proved for axis-parallel rectangles, '
              'segments of any slope and polylines, giving the unconditional statement flood = exactly the cells whose closed box meets the shape '
-             '(Props/C12Lattice: rect_flood_exact, seg_flood_exact, polyline_flood_exact); '
+             '(Props/C12Lattice: rect_flood_exact, seg_flood_exact, polyline_flood_exact), and for the filled even-odd region of every ring '
+             '(Props/C12Filled: crossing parity constant along axis-parallel segments that avoid the edges, ring_filled_flood_exact); '
              'hash_collection = aggregation of exactly the shapes containing each cell, in order. Tied to NiemeyerHasher by measuring touches / '
              '_get_surrounding per shape, flooding them in the model and comparing with hash_shape; an exact integer-grid oracle independently '
              'checks that the cells are exactly those the shape touches.',
-        note='Not proved: connectedness of the cells touched by a filled polygon (proved for rectangles, segments and polylines only) and the per-cell predicate (C02); curved shapes are claimed for their polygon form, '
+        note='Not proved: that the float per-cell predicate intersects_shape equals the exact one (C02 tie); curved shapes are claimed for their polygon form, '
              'the analytic sliver is known finding F12b; H3 clauses are glue checks against the h3 library (np- streams).',
         technique='Lean 4 proof (invariant/refinement of the flood fill, termination measure, dict semantics) + source translator (the work-list loops of NiemeyerHasher, hash_shape, hash_coordinates and hash_collection regenerated as Lean and proved equal to the model) + measured-table correspondence + exact geometric oracle',
         design='§6 C12'),
